@@ -18,6 +18,9 @@ subprocess.run(['cp', '-a', os.path.join(VERIF, '.cache', 'target'), cache + '/t
 if 'patch' in m:
     subprocess.run(['patch', '-p1', '--no-backup-if-mismatch', '-i', m['patch']], cwd=copy, check=True)
 else:
-    p = os.path.join(copy, m['file']); s = open(p).read(); assert s.count(m['old']) == 1
-    open(p, 'w').write(s.replace(m['old'], m['new']))
+    p = os.path.join(copy, m['file']); s = open(p).read()
+    for old_, new_ in (m.get('edits') or [[m['old'], m['new']]]):
+        assert s.count(old_) == 1, old_
+        s = s.replace(old_, new_)
+    open(p, 'w').write(s)
 print('MLS_REPO=%s MLS_VERIF_CACHE=%s ./check %s' % (copy, cache, m['property'].split(',')[0]))
